@@ -274,7 +274,7 @@ def main() -> int:
     for k in range(120 if quick else 3000):
         n += 1
         combo = [(r.choice(SLOTS), r.choice(list(payloads("c", "e")))) for _ in range(r.randint(2, 4))]
-        if len({s for s, _ in combo}) == len(combo):
+        if len({ROUTES.get(s, s) for s, _ in combo}) == len(combo):  # (routes write the same place as the slot they lead to: never two of them in one combination)
             cases.append((combo, k % len(cfgs), n))
     for combo, cfg_i, cid in cases:
         meta, cfg = cfgs[cfg_i]
